@@ -93,6 +93,12 @@ CHECKS.update({
    text="Hand-written cooperative scheduler + depth-first search with iterative preemption bounding over ALL interleavings (bound 2; thorough: 3 threads bound 2 and 2 threads bound 4) of every multiset of 2 (3) thread bodies from a 10-operation alphabet: 7 read-only operations on one shared tree (Validate, Marshal7951, TogNMINotifications, GetNode, Diff, DeepCopy, EncodeTypedValue with a shared config) and 3 writers into their own trees sharing one schema and one set of input messages (Unmarshal, SetNode with JSON tolerance, UnmarshalSetRequest), in simple- and wrapper-union packages. ytypes/string_type.go is compiled from a copy derived at check time with its sync import rewritten to a shim, so every RLock/RUnlock/Lock/Unlock of the regexp cache is a scheduling point (cache reset to cold per execution). Per execution: every result equals the sequential result; the shared tree, messages and config are never written (checked at every scheduling point); the shared schema graph hash is unchanged; no deadlock; prefix replay divergence is a hard error. A separate free-running -race pass over the same bodies (pairs and triples, GOMAXPROCS 2/4/16) is complementary sampling evidence.",
    technique="stateless model checking: controlled scheduler with DFS over interleavings (iterative preemption bounding) of the real code at its synchronisation points, invariant on shared objects at every point", note="scheduling points exist only at lock operations and operation boundaries, so unsynchronised plain-memory conflicts are covered by the never-written invariant and the sampled race-detector pass, not by the search; executions with more preemptions than the bound are not explored; trusted base: harness/sched, reflect-based snapshots"),
 })
+
+CHECKS.update({
+ "C13": dict(engine="treemc", cat="model_checking", sec="5/C13",
+   text="From every explicit-state search state (k<=1 full alphabet on three packages in quick; k<=2 and all 8 in thorough) UnmarshalSetRequest / UnmarshalNotifications are driven on a fresh real tree with every single-operation request over the full operation alphabet (delete / replace / update at root, containers, presence containers, list entries, ordered-list entries, whole lists, partial keys, leaves, leaf-lists; payloads scalar TypedValue, JSON_IETF scalar, JSON_IETF sub-trees with <=2 atoms), every prefix split, all 2-operation requests over a focused alphabet (same path twice, child then ancestor, ancestor then child), histories of two requests, and atomic notifications at ordered-list and container prefixes. After every request the observed Model is compared with reference gNMI Set semantics on the path-to-value Model (prefix join; deletes; each replace = delete subtree then write payload; each update = merge).",
+   technique="explicit-state transition exploration (state x SetRequest) on the real implementation against reference gNMI Set semantics on the model", note=TREE_NOTE),
+})
 ALL = [json.loads(l)["id"] for l in open(os.path.join(V, "properties.jsonl"))]
 NA = {
 }
